@@ -86,6 +86,14 @@ claim("C06", "constant-agreement of the legacy-format magic with the writer's zl
       "pair equal to it (the validator side is C02-R5).",
       "roaring set semantics and serialisation; zlib/base64 on concrete data.", "DESIGN.md §7 C06")
 
+claim("C04", "MIR constructor gate + who-may-write enumeration of the seven guarded collections + sibling agreement of the three id gates + HIR mutation-before-error inventory + variant↔collection bijection tables + serde wiring",
+      "Decides for all mutation histories the per-operation invariants the uniqueness argument rests on: CoreDocument{data} is built only after check_id_constraints ✓ (map_unchecked reviewed), "
+      "CoreDocumentData is crate-private and deserialisation goes through it; only eleven reviewed functions obtain mutable access to any of the seven guarded collections; the three gates "
+      "(check_id_constraints, insert_service, insert_method) consult the same universe — raw ids of all relationship entries incl. unresolved references, general-purpose methods, services; every "
+      "append happens after its gate and no error exit is reachable after a mutation; attach appends only a Refer of a method resolved in scope VerificationMethod; every MethodScope/MethodRelationship "
+      "table maps each variant to its own collection; remove_method_and_scope removes the id from all five relationship sets and the general set without early exit; serde defaults/untagged order.",
+      "equality with an abstract model over histories; DIDUrlQuery first-match semantics; concrete JSON round trips.", "DESIGN.md §7 C04")
+
 for _p, _r in {
     "C01": "rules not yet implemented in this revision (planned, DESIGN §7)", "C02": "rules not yet implemented in this revision",
     "C03": "rules not yet implemented in this revision", "C04": "rules not yet implemented in this revision",
